@@ -22,6 +22,7 @@ THEOREMS = ['Tbox.C14.' + t for t in [
     'C14_world_peer_simulation', 'C14_world_callback_once', 'C14_world_callback_exactly_once',
     'C14_timer_phase', 'C14_deadline_ms', 'C14_deadline_reached',
     'C14_id_width', 'C14_callback_once_any_ids', 'C14_id_wrap_counterexample',
+    'C14_alloc_total', 'C14_alloc_next', 'C14_wrap_exactly_once', 'C14_stale_token_ignored', 'C14_initialize_checked',
     'C14_dispatch_batch', 'C14_dispatch_ids', 'C14_response_id_total',
     'C14_getfield_untouched', 'C14_getfield_unsigned_truncates',
 ]]
@@ -37,7 +38,7 @@ SOURCES = ['modules/jsonrpc/proto.cpp', 'modules/jsonrpc/rpc.cpp',
 FLAVOUR = 'asan'
 LIBS = ['-ldl']
 BATCH = 100
-BATCH_TIMEOUT = 300
+BATCH_TIMEOUT = 900     # a watchdog for hangs only: under 16 busy cores a batch of 70 000-byte length sweeps (ASan) needs several minutes
 SHRINK_TESTS = 80
 TRUSTED = [
     'model lean/TboxModel/C14/Model.lean is hand-written from header_stream_proto.cpp, raw_stream_proto.cpp, packet_proto.cpp, '
@@ -50,7 +51,9 @@ TRUSTED = [
     'Rpc objects with an echo service) at every text length and reports the first length that does not round-trip; the acceptor demands '
     'none, which is what C14_header_roundtrip / C14_raw_roundtrip / C14_packet_roundtrip / C14_callback_response state for every length',
     'Rpc::id_alloc_ is set by the harness through a private-member pointer obtained by explicit template instantiation (`jump`, test-only); '
-    'request() at id_alloc_ == INT_MAX (its ++ would be a signed overflow) is refused on both sides (event `misuse`), never executed',
+    'requests across the wrap of the counter (INT_MAX -> 1, pending ids skipped) are executed on the real code under UBSan',
+    'the payload of the request timeout ring is RequestToken{id, seq}; the model keeps the seq component and looks the pending entry up '
+    'by it (entries are immutable: the entry carrying seq has the id of the token); seq is a uint64_t counter, the model an unbounded Nat',
     'the receive loop around onRecvData (consume ret while ret>0, stop on 0, give up on ret<0) is the harness\'s, as in examples/jsonrpc',
     'isgraph() is modelled for the "C" locale; FindEndPos levels are unbounded integers (input < 2^31 bytes)',
     'virtual time by libc interposition (harness/vtime.h); the 1-s timer is the real event loop\'s',
@@ -60,8 +63,10 @@ TRUSTED = [
 ]
 ASSUMPTIONS = ['message text shorter than 2^32 bytes (the encoder truncates the length field otherwise)',
                'stack depth of Proto::onRecvJson is exercised by the harness only (deep op), not expressible in the model',
-               'fewer than 2^31 requests with a completion callback per Rpc object: the 2^31-th executes a signed overflow of id_alloc_ '
-               '(C14_id_wrap_counterexample shows what the wrap does to exactly-once; C14_callback_once_any_ids: at-most-once survives it)']
+               'fewer than 2^31 - 1 requests pending at once per Rpc object (C14_alloc_total: then the id allocation loop returns; a table holding '
+               'every id would make it spin) and fewer than 2^64 requests with a callback per object (the uint64_t sequence number of the timeout '
+               'tokens does not wrap); an id is handed out again only after the counter has gone round: a response that arrives for the earlier '
+               'use of a re-used id after that is indistinguishable from the new request\'s (inherent in a finite id space)']
 RULE = ('framing cases: messages generated as JSON (nested, quotes/backslashes/brackets in strings, non-ASCII) through the real '
         'encoder, fed back unsegmented, at every 2-way split, byte-wise and at random cuts, concatenated; literal streams with '
         'hand-built headers incl. extreme length fields and wrong magic; hostile bracket/quote-heavy bytes; deep arrays. '
@@ -72,6 +77,9 @@ RULE = ('framing cases: messages generated as JSON (nested, quotes/backslashes/b
         'round 6: real encoder -> real decoder at every text length 0..4200 (thorough: ..70000) and around 2^13..2^16, 2^16+6, 2^20 for all three '
         'framings and three message kinds, each followed by a small message; the same through two real Rpc objects; padded requests of chosen '
         'exact lengths compared byte for byte with the model; ids at INT_MAX through a test-only counter jump, backward jumps (id reuse); '
+        'round 7: requests across the wrap INT_MAX -> 1 with pending ids in the way (skipped), ids re-used while the token of their answered first use is '
+        'still in the ring (must not be timed out early), re-use from inside the timeout / completion callback of the same id, the transport answering '
+        'the id that is being allocated, batch arrays of responses with duplicate ids, initialize(proto, timeout_sec <= 0); '
         'onRecvJson on described JSON values (every kind/defect, batches); GetField/Has*Field; transport down, transport answering inside the '
         'send callback, 512 slots, clock jumps beyond 2^31 ms; receive buffers at every alignment 0..7. '
         'non-trivial = the model run resumes a frame across segments, decodes several frames from one segment, meets an extreme '
@@ -553,28 +561,45 @@ def gen_getters(rng):
 
 
 def gen_ids(rng):
-    """requests whose ids are at the top of the range of int (counter set by the test-only `jump`), answered with ids on
-    both sides of INT_MAX / 2^32; the request at id_alloc_ == INT_MAX is refused; backward jumps reuse ids that are still
-    pending or still in the timeout ring"""
+    """requests whose ids are at the top of the range of int and across the wrap INT_MAX -> 1 (counter set by the test-only
+    `jump`), with low ids still pending (they are skipped), answered with ids on both sides of INT_MAX / 2^32; backward jumps
+    re-use ids whose answered first use still has its token in the timeout ring (no early timeout) or that are still pending
+    (skipped); re-use from inside the callbacks of the same id; state-derived follow-ups (the id just allocated, the id just
+    completed, the id just timed out, the counter itself)"""
     n = rng.choice([1, 2, 3])
-    ops = ['rpc %s %d' % (rng.choice('HRP'), n), 'cb', 'cb q0.0', 'cb i%d:0' % rng.choice([INT_MAX, INT_MAX - 1, 1])]
-    if rng.random() < 0.6:
-        j = INT_MAX - rng.choice([0, 1, 2, 3, 5])
+    ops = ['rpc %s %d' % (rng.choice('HRP'), n), 'cb', 'cb q0.0', 'cb i%d:0' % rng.choice([INT_MAX, INT_MAX - 1, 1, 2]), 'cb q2.0 i1:5']
+    r0 = rng.random()
+    if r0 < 0.45:
+        low = rng.choice([0, 1, 2, 3])                      # ids 1..low stay pending while the counter wraps
+        for _ in range(low): ops.append('req %d 0' % rng.choice([0, 0, 1]))
+        if low and rng.random() < 0.4: ops.append('rsp %d 0' % rng.randrange(1, low + 1))      # answered: its token stays in the ring
+        j = INT_MAX - rng.choice([0, 0, 1, 2, 3, 5])
         ops.append('jump %d' % j)
-        for _ in range(rng.choice([1, 2, 4, 6])):
+        for _ in range(rng.choice([2, 3, 4, 6, 8])):
             r = rng.random()
-            if r < 0.5: ops.append('req %d 0' % rng.choice([0, 0, 1, 2]))
-            elif r < 0.85:
+            if r < 0.5: ops.append('req %d 0' % rng.choice([0, 0, 1, 2, 3]))
+            elif r < 0.6: ops.append('reqsync %d 0 %d' % (rng.choice([0, 1, 3]), rng.choice(CODES)))
+            elif r < 0.88:
                 ops.append('rsp %d %d' % (rng.choice([INT_MAX, INT_MAX - 1, INT_MAX - 2, INT_MAX + 1, -INT_MAX - 1, (1 << 32) + INT_MAX,
-                                                        (1 << 32) - 1, 1, 0, -1]), rng.choice(CODES)))
-            else: ops.append('adv 1000')
+                                                        (1 << 32) - 1, (1 << 32) + 1, 1, 2, 3, 4, 0, -1]), rng.choice(CODES)))
+            else: ops.append('adv %d' % rng.choice([1000, 500, n * 1000]))
+    elif r0 < 0.8:
+        k = rng.choice([1, 2, 3])
+        for _ in range(k): ops.append('req %d 0' % rng.choice([0, 0, 1, 3]))
+        for i in range(1, k + 1):
+            if rng.random() < 0.6: ops.append('rsp %d %d' % (i, rng.choice(CODES)))
+        if rng.random() < 0.6: ops.append('adv %d' % rng.choice([1000, 999, (n - 1) * 1000, 500]))
+        ops.append('jump %d' % rng.choice([0, 0, 1, 2, k - 1, k]))         # the next request re-uses an id used before
+        for _ in range(rng.choice([1, 2, 3, 5])):
+            ops.append(rng.choice(['req 0 0', 'req 0 0', 'req 1 0', 'req 3 0', 'rsp 1 0', 'rsp 2 5', 'adv 1000', 'adv 500', 'jump 0', 'jump 7',
+                                   'rspb 1,1 0', 'rspb 1,2,1 5', 'reqsync 0 0 0']))
     else:
-        for _ in range(rng.choice([1, 2, 3])): ops.append('req %d 0' % rng.choice([0, 0, 2]))
-        if rng.random() < 0.5: ops.append('rsp 1 0')
-        if rng.random() < 0.5: ops.append('adv 1000')
-        ops.append('jump %d' % rng.choice([0, 0, 1, 2]))
+        # the id that just timed out / completed is re-allocated from inside its own callback (script 1 / 3 issue a request)
+        ops.append('req %d 0' % rng.choice([1, 3]))
+        ops.append('jump 0')
+        ops.append(rng.choice(['adv %d' % (n * 1000), 'rsp 1 0', 'rsp 1 5']))
         for _ in range(rng.choice([1, 2, 3])):
-            ops.append(rng.choice(['req 0 0', 'req 0 0', 'rsp 1 0', 'rsp 2 5', 'adv 1000', 'jump 0', 'jump 7']))
+            ops.append(rng.choice(['rsp 1 0', 'adv 1000', 'req 1 0', 'jump 0', 'rspb 1,1 0']))
     ops += ['adv %d' % ((n + 1) * 1000), 'adv 4000']
     return ops
 
@@ -688,7 +713,21 @@ def gen(rng, tier):
     yield ['rpc R 513', 'rpc R 512', 'jump 2147483648', 'jump x', 'jump 99999999999', 'tx maybe', 'reqsync 0 0', 'reqsync 0 8 0', 'adv 5000000001',
            'adv 99999999999', 'jump 5', 'req 0 0', 'tx off', 'req 0 0', 'tx on', 'reqsync 0 0 5', 'adv 5000000000']
     yield ['world R 1 1', 'a jump 5', 'a tx off', 'a reqsync 0 0 0', 'a req 0 0', 'dlv ab 0', 'dlv ba 0']
-    # directed: ids at the top of int; the request at INT_MAX is refused (its ++id_alloc_ would overflow)
+    # round 7 directed: the wrap INT_MAX -> 1 on the real code (UBSan): nothing pending / 1 and 2 pending (skipped) / 1 answered (stale token)
+    yield ['rpc R 2', 'cb', 'jump 2147483645', 'req 0 0', 'req 0 0', 'req 0 0', 'req 0 0', 'rsp 2147483647 0', 'rsp 2147483648 0', 'rsp 1 5', 'rsp 0 0',
+           'adv 2000', 'adv 1000']
+    yield ['rpc H 3', 'cb', 'req 0 0', 'req 0 0', 'jump 2147483646', 'req 0 0', 'req 0 0', 'req 0 0', 'rsp 3 0', 'rsp 2147483647 5', 'rsp 1 0', 'rsp 2 0',
+           'rsp 4 0', 'adv 3000', 'adv 1000']
+    yield ['rpc P 3', 'cb', 'req 0 0', 'rsp 1 0', 'adv 2000', 'jump 2147483647', 'req 0 0', 'adv 1000', 'adv 1000', 'adv 1000', 'rsp 1 0']
+    yield ['rpc R 1', 'cb q0.0', 'req 0 0', 'jump 0', 'adv 1000', 'jump 0', 'adv 1000', 'rsp 1 0', 'adv 1000']          # re-use from the timeout callback of the same id
+    yield ['rpc R 2', 'cb q1.0 i1:5', 'cb', 'req 0 0', 'jump 0', 'rsp 1 0', 'rsp 1 0', 'adv 2000']                       # re-use from the completion callback, then a duplicate
+    yield ['rpc H 2', 'cb', 'jump 2147483647', 'reqsync 0 0 0', 'reqsync 0 0 5', 'jump 0', 'reqsync 0 0 0', 'adv 2000']     # the transport answers the id being allocated
+    yield ['rpc R 2', 'cb', 'req 0 0', 'req 0 0', 'rspb 1,1 0', 'rspb 2,3,2 5', 'rspb 1 0', 'rspb 4294967297,2 0', 'rspb 1, 0', 'rspb 1,2,3,4,5,6,7,8,9 0', 'adv 2000']
+    yield ['rpc R 2', 'hd s0 r9:0 r1:5', 'hd as r2:0', 'svc 0 0', 'svc 1 1', 'inreq 1 0', 'inreq 2 1', 'srsp 7 0', 'adv 2000']   # respond() for ids never asked
+    # round 7 directed: initialize(proto, timeout_sec <= 0) is refused (the case stays fresh)
+    yield ['rpc R 0', 'rpc H -1', 'rpc P -513', 'rpc R -', 'rpc R 2', 'cb', 'req 0 0', 'adv 2000']
+    yield ['rpc P 0', 'open 0 R', 'feed 0 5b5d']
+    # directed: ids at the top of int
     yield ['rpc R 2', 'cb', 'jump 2147483645', 'req 0 0', 'req 0 0', 'req 0 0', 'rsp 2147483648 0', 'rsp 2147483647 0', 'rsp 2147483646 5', 'rsp 6442450942 0',
            'rsp -2147483648 0', 'adv 2000', 'req 0 0', 'jump 0', 'req 0 0', 'rsp 1 0']
     yield ['rpc H 3', 'cb', 'req 0 0', 'jump 0', 'req 0 0', 'rsp 1 0', 'adv 3000', 'adv 1000']                     # id reused while pending: the first callback is lost
@@ -731,7 +770,7 @@ NT = ('resumed-frame', 'multi-frame', 'hdr-need-body-extreme-len', 'raw-unbalanc
       'w-timeout-fired', 'w-rsp-late-or-dup', 'w-rsp-unknown', 'w-nested-fire', 'w-cb-request', 'w-cb-respond', 'w-cb-cleanup',
       'w-svc-changed-in-cb', 'w-misuse', 'w-respond-timeout', 'w-inreq-method-not-found', 'w-srsp-unawaited', 'w-dlv-reordered',
       'lensweep', 'rpcsweep', 'pj-ignored', 'pj-batch', 'pj-request', 'pj-response', 'gf-hit', 'gf-miss', 'hf', 'jump-back', 'jump-intmax',
-      'req-at-intmax-refused', 'id-near-intmax', 'tx-off-dropped', 'tx-off-timeout', 'reqsync', 'adv-beyond-2^31', 'rpc-many-slots')
+      'id-wrapped', 'id-skip-pending', 'rpc-init-refused', 'rsp-batch', 'id-near-intmax', 'tx-off-dropped', 'tx-off-timeout', 'reqsync', 'adv-beyond-2^31', 'rpc-many-slots')
 
 
 def nontrivial(ops, model_lines):
@@ -758,12 +797,13 @@ LEVEL_TEXT = ('Lean 4 theorems over a hand-written model: header framing (32-bit
               'once, at the N-th tick, with the timeout code; the first matching response before that fires it with its code; other ids '
               '(unknown, duplicate, late, beyond int — also fed from inside callbacks) are ignored; monitor invariant (timer on iff something '
               'monitored) for every program incl. cleanup() from callbacks; a cleaned-up object has nothing pending and never fires again. '
-              'Ids: counter and pending ids are C++ ints in every reachable state, at-most-once for every id allocation (wrap, reuse), '
-              'counterexamples for exactly-once across the wrap; onRecvJson dispatch total over every JSON value (ids/codes handed to callbacks '
+              'Ids: counter and pending ids are C++ ints in every reachable state; the cyclic allocation returns a free id in [1, INT_MAX] while fewer '
+              'than INT_MAX requests are pending (pigeonhole) and exactly-once holds across the wrap (timeout tokens carry a never re-used sequence number: '
+              'a stale token of a re-used id is ignored); counterexamples for the code as found; initialize() succeeds exactly for timeout_sec >= 1; onRecvJson dispatch total over every JSON value (ids/codes handed to callbacks '
               'are ints without narrowing, non-int response ids complete nothing); GetField leaves its output untouched on failure. '
               'Tied to the code on every run by trace acceptance of the real protos / real Rpc (ASan+UBSan) incl. a length sweep of the real encoders.')
 LEVEL_NOTE = ('trusted: Lean kernel; hand-written model + trace-acceptance tie (coverage bounded by the generator, measured); '
-              'nlohmann parse/dump abstract (oracle); stack depth outside the model; request ids carried at the width of int up to '
-              'INT_MAX (C14_id_width), the overflowing 2^31-th request() is refused on both sides (theorem-only counterexample)')
+              'nlohmann parse/dump abstract (oracle); stack depth outside the model; request ids carried at the width of int '
+              '(C14_id_width), the wrap INT_MAX -> 1 is executed on the real code; the 64-bit token sequence number is an unbounded Nat in the model')
 TECHNIQUE = 'Lean 4 proofs (induction over token grammars / op sequences, invariants) + trace acceptance of the implementation'
 DESIGN_REF = 'DESIGN.md §6 C14, §7 row 8'
